@@ -101,6 +101,49 @@ def run(ctx, F, cg):
         ctx.ok("R13c", "import_tenant_with_dedup|rollback", "Err branch deletes recorded nodes, then returns the error")
     else:
         ctx.violation("R13c", "import_tenant_with_dedup|no-rollback", where(w), "the error branch does not delete the nodes the import created")
+    # rollback loop: every recorded id is deleted (no filter between the record and the delete)
+    ctx.rule("R13e", "the rollback deletes every node the import recorded: in the error branch, from the head of the loop over the recorded ids every path back to the head passes delete_node (a guard such as 'only ids above the high-water mark' leaves nodes that took recycled ids behind)")
+    heads = [c for c in wb.calls() if c.path.rsplit("::", 1)[-1] == "next" and c.expname == "ForLoop" and c.target is not None and "NodeId" in wb.local_ty(c.dest[0])]
+    del_bbs = {c.bb for c in dels}
+    n_rb = 0
+    for hd in heads:
+        if not any(wb.dominates(hd.bb, d.bb) or d.bb in wb.reachable(hd.bb) for d in dels):
+            continue
+        n_rb += 1
+        some_t = None
+        for i in sorted(wb.reachable(hd.target)):
+            t_ = wb.blocks[i]["t"]
+            if t_[0] == "switch" and t_[1][0] != "k":
+                ds_ = wb.defs().get(t_[1][1][0], [])
+                if len(ds_) == 1 and ds_[0][0] == "stmt" and ds_[0][4][0] == "discr" and ds_[0][4][1][0] == hd.dest[0]:
+                    one = [tg for v, tg in t_[2] if v == "1"]
+                    some_t = one[0] if one else t_[3]
+                    break
+        if some_t is None:
+            ctx.anchor_failure("R13e", "Some side of the rollback loop head")
+            continue
+        if hd.bb in wb.reachable(some_t, avoid=del_bbs):
+            ctx.violation("R13e", "import_tenant_with_dedup|rollback-skips-recorded-id", where(w, hd.line), "the rollback loop can go on to the next recorded id without calling delete_node: nodes of the failed import that the guard excludes (e.g. recycled ids below a high-water mark) are left in the store")
+        else:
+            ctx.ok("R13e", "import_tenant_with_dedup|rollback-loop", "every recorded id reaches delete_node")
+    ctx.floor("R13e", "rollback loops over recorded ids", n_rb, 1)
+    # the stream iterator is consumed directly: no adaptor that drops Err items
+    ctx.rule("R13f", "the import consumes the line iterator of the snapshot stream directly (for / next): an adaptor that drops or stops at Err items (map_while(Result::ok), filter_map(Result::ok), flatten, take_while ...) turns a read error into a normal end of input")
+    n_it = 0
+    for c in b.calls():
+        if not c.args or c.args[0][0] == "k":
+            continue
+        ty0 = b.local_ty(c.args[0][1][0])
+        if "std::io::Lines<" not in ty0:
+            continue
+        n_it += 1
+        nm = c.path.rsplit("::", 1)[-1]
+        if nm in ("next", "into_iter", "by_ref", "deref_mut", "borrow_mut"):
+            continue
+        ctx.violation("R13f", "import_tenant_inner|line-iterator|%s" % nm, where(r, c.line), "the snapshot stream's line iterator is passed through `%s`: items that are read errors no longer reach the `?` that fails the import (a cut or corrupted gzip stream imports the prefix that decoded and reports success)" % nm)
+    if n_it and not [1 for c in b.calls() if c.args and c.args[0][0] != "k" and "std::io::Lines<" in b.local_ty(c.args[0][1][0]) and c.path.rsplit("::", 1)[-1] not in ("next", "into_iter", "by_ref", "deref_mut", "borrow_mut")]:
+        ctx.ok("R13f", "import_tenant_inner|line-iterator", "consumed by next / for only (%d uses)" % n_it)
+    ctx.floor("R13f", "uses of the stream's line iterator", n_it, 2)
     # ---- R13d: a read / decode error is never taken for the end of the input -------------------------------------
     ctx.rule("R13d", "in the import, the error side of every io::Result read from the snapshot stream reaches only error exits: a failed read (gzip checksum, truncated frame, I/O error) is never treated as a normal end of input, whatever has been counted so far")
     from .. import mutpoints as mp
